@@ -1,7 +1,7 @@
 (* Entry point of the executable model: one case (a [val]) in, one
    observation (a [val]) out.  The same function is extracted to OCaml
    (vv_eval) and re-evaluated on samples inside Coq by vm_compute. *)
-From VV Require Import Base.Bits Base.Rt Base.Val Gen.GenConsts Gen.GenLayout Gen.GenFns Spec.ValidityDec Spec.BeSpec Spec.FeSpec Spec.SessSpec Spec.ProxySpec Spec.DaemonSpec Spec.ShutSpec Model.Transport Model.BeServer Model.Frontend Model.Proxy Model.Daemon Model.Shutdown.
+From VV Require Import Base.Bits Base.Rt Base.Val Gen.GenConsts Gen.GenLayout Gen.GenFns Spec.ValidityDec Spec.BeSpec Spec.FeSpec Spec.SessSpec Spec.ProxySpec Spec.DaemonSpec Spec.ShutSpec Spec.KernSpec Model.Transport Model.BeServer Model.Frontend Model.Proxy Model.Daemon Model.Shutdown.
 Open Scope string_scope.
 Open Scope list_scope.
 Open Scope N_scope.
@@ -444,6 +444,23 @@ Definition run_shut (args : list val) : val :=
   | _ => verror "args"
   end.
 
+(* ---- family "kern": kernel backends ----  args: [VS backend; VS op; nums; VH data; VN acked] *)
+Definition run_kern (args : list val) : val :=
+  match args with
+  | [VS backend; VS op; nums; VH data; VN acked] =>
+      match val_NL nums with
+      | Some a => kern_expected backend op a (hex_bytes data) acked
+      | None => verror "args"
+      end
+  | _ => verror "args"
+  end.
+(* the specification IS the expected observation: the check is equality *)
+Definition run_kern_spec (args : list val) : val :=
+  match args with
+  | [b; o; n; d; a; observed] => vbool (val_eqb (run_kern [b; o; n; d; a]) observed)
+  | _ => verror "args"
+  end.
+
 Definition run (c : val) : val :=
   match c with
   | VL (VS fam :: args) =>
@@ -456,6 +473,8 @@ Definition run (c : val) : val :=
       else if String.eqb fam "sess" then run_sess args
       else if String.eqb fam "tx" then run_tx args
       else if String.eqb fam "dmn" then run_dmn args
+      else if String.eqb fam "kern" then run_kern args
+      else if String.eqb fam "kern-spec" then run_kern_spec args
       else if String.eqb fam "shut" then run_shut args
       else if String.eqb fam "shut-spec" then shut_spec args
       else if String.eqb fam "dmn-spec" then dmn_spec args
